@@ -216,4 +216,126 @@ Proof.
     + rewrite Z.sub_diag in Hc. cbn in Hc. lia.
 Qed.
 
+
+(* ------------------------------------------------------------------------------------------ *)
+(* common prefix of a poll that is not cut short                                                 *)
+
+Lemma poll_have_token_body f now pin (apps : list A) f' o a c :
+  have_token (f_state f) = true -> poll ops f now pin apps = Ok (f', o, a, c) ->
+  exists w', body A ops f now (tx_busy pin) (mkWorld (rx pin) None apps [] []) = Ok (f', w') /\
+             o = mkPhyOut (w_tx w') (w_rx w') /\ a = w_apps w' /\ c = w_calls w'.
+Proof.
+  intros Hp H. apply poll_inv in H. destruct H as [w' [H [Ho [Ha Hc]]]].
+  apply poll_inner_cases in H. destruct H as [[_ [Hs _]]|[_ [f0 [w0 [Hpro H]]]]].
+  - rewrite Hs in Hp. discriminate Hp.
+  - destruct (prologue_have_token A _ _ _ _ Hpro Hp) as [-> ->]. exists w'. repeat split; assumption.
+Qed.
+
+Lemma cfba_new_bytes f now (w : W) f1 w1 :
+  predicted f now = false -> (f_pending f < length (w_rx w))%nat ->
+  check_for_bus_activity A f now w = (f1, w1) ->
+  same_but_lba_pending f f1 /\ f_lba f1 = Some now /\ f_pending f1 = length (w_rx w) /\
+  w_tx w1 = w_tx w /\ w_calls w1 = w_calls w /\ w_rx w1 = w_rx w /\ w_apps w1 = w_apps w.
+Proof.
+  intros Hp Hn Ec. apply cfba_spec in Ec. destruct Ec as [Hs [Htx [Hca [Hrx [Hap Hl]]]]].
+  destruct (Nat.ltb_spec (f_pending f) (length (w_rx w))) as [_|C]; [|lia]. destruct Hl as [Hl Hpe].
+  split; [exact Hs|]. split; [|repeat split; assumption]. rewrite Hl. unfold predicted in Hp.
+  destruct (f_lba f) as [l|]; [|reflexivity]. apply Z.leb_gt in Hp. rewrite Z.max_r by lia. reflexivity.
+Qed.
+
+Lemma cse_fresh f now f2 b :
+  f_lba f = Some now -> 0 <= slot_time (f_p f) -> check_slot_expired f now = Ok (f2, b) -> b = false /\ f2 = f.
+Proof.
+  intros Hl Hs H. unfold check_slot_expired, lba_get_or_insert in H. rewrite Hl in H.
+  unfold inst_add in H. destruct (i64_ok _); cbn [bind] in H; [|discriminate H].
+  injection H as <- <-. split; [apply Z.ltb_ge; lia|reflexivity].
+Qed.
+
+Lemma ts_p f g : f_p f = f_p g -> ts f = ts g.
+Proof. unfold ts. intros ->. reflexivity. Qed.
+
+Lemma ivr_p f g addr t : f_p f = f_p g -> is_valid_response f addr t = is_valid_response g addr t.
+Proof. intros H. unfold is_valid_response. rewrite (ts_p f g H). reflexivity. Qed.
+
+Lemma receive_telegram_spec (buf : bytes) :
+  receive_telegram (fun t : telegram => t) buf =
+  Ok (match decode_spec buf with Reject => ([], None) | Accept t n => (skipn n buf, Some t) | NeedMore => (buf, None) end).
+Proof. unfold receive_telegram. rewrite decode_is_spec. cbn [bind]. destruct (decode_spec buf); reflexivity. Qed.
+
+(* ------------------------------------------------------------------------------------------ *)
+(* C06_backoff                                                                                  *)
+
+Lemma await_unexpected f now (w : W) pa t n f1 w1 r :
+  decode_spec (w_rx w) = Accept t n -> gap_reply_from (ts f) pa t = false ->
+  await_gap_poll_response A f now w pa = Ok (f1, w1, r) ->
+  r = GprUnexpectedTelegram /\ f1 = mark_rx f now /\ w_tx w1 = w_tx w /\ w_calls w1 = w_calls w /\
+  w_apps w1 = w_apps w /\ w_rx w1 = skipn n (w_rx w).
+Proof.
+  intros Hd Hg H. unfold await_gap_poll_response in H.
+  destruct (pa =? ts f); [discriminate H|]. destruct (negb _); [discriminate H|].
+  rewrite receive_telegram_spec, Hd in H. cbn [bind] in H.
+  assert (Hts : ts (mark_rx f now) = ts f) by (apply ts_p; destruct (mark_rx_frame f now) as [Mp _]; exact Mp).
+  rewrite Hts in H.
+  destruct t as [[da sa dsap ssap fc] pdu|da sa|]; [destruct fc as [fb rq|st status]| |].
+  - injection H as <- <- <-. repeat split; reflexivity.
+  - cbn [gap_reply_from] in Hg. rewrite Hg in H. injection H as <- <- <-. repeat split; reflexivity.
+  - injection H as <- <- <-. repeat split; reflexivity.
+  - injection H as <- <- <-. repeat split; reflexivity.
+Qed.
+
+Definition unexpected_for (f : fdl) (t : telegram) : Prop :=
+  match f_state f with
+  | AwaitDataResponse addr _ _ => is_valid_response f addr t = false
+  | AwaitStatusResponse a => gap_reply_from (ts f) a t = false
+  | ClaimToken (StepScanAwaitResponse a) => gap_reply_from (ts f) a t = false
+  | _ => False
+  end.
+
+(* A station that holds the token and waits for an answer (to a data request, to a GAP poll while
+   passing, to a GAP poll of the post-claim scan) and finds a complete telegram that is not that answer
+   gives the token up: ActiveIdle, nothing transmitted, no application called, ring view unchanged. *)
+Theorem backoff f now pin (apps : list A) t n f' o a c :
+  unexpected_for f t -> tx_busy pin = false -> predicted f now = false ->
+  decode_spec (rx pin) = Accept t n ->
+  poll ops f now pin apps = Ok (f', o, a, c) ->
+  f_state f' = ActiveIdle None None 0 /\ o = mkPhyOut None (skipn n (rx pin)) /\ c = [] /\ a = apps /\
+  f_ring f' = f_ring f /\ f_p f' = f_p f.
+Proof.
+  intros Hu Hb Hp Hd H.
+  assert (Hht : have_token (f_state f) = true).
+  { unfold unexpected_for in Hu. destruct (f_state f) as [ | | | | |[ | | |a0]| | | | ]; try contradiction; reflexivity. }
+  apply poll_have_token_body in H; [|exact Hht]. destruct H as [w' [H [-> [-> ->]]]].
+  unfold body in H. rewrite Hb, Hp in H. cbn [orb] in H.
+  destruct (check_for_bus_activity A f now _) as [f1 w1] eqn:Ec. apply cfba_spec in Ec.
+  destruct Ec as [[Hp1 [Hr1 [_ [_ [Hs1 _]]]]] [Htx1 [Hca1 [Hrx1 [Hap1 _]]]]].
+  cbn [w_tx w_calls w_rx w_apps] in Htx1, Hca1, Hrx1, Hap1.
+  unfold dispatch in H. rewrite Hs1 in H. unfold unexpected_for in Hu.
+  destruct (mark_rx_frame f1 now) as [Mp [Mr [_ [Ms _]]]].
+  destruct (f_state f) as [ | | | | |[ | | |a0]|addr tk fa| | |a0] eqn:Es; try contradiction; cbn [kind_of poll_dispatch] in H.
+  - (* ClaimToken ScanAwaitResponse *)
+    unfold do_claim_token, assert_entry in H. rewrite ?Hs1, ?Es in H.
+    cbn [kind_of do_fn_entry state_kind_eqb bind get_claim_token_step] in H.
+    destruct (await_gap_poll_response A f1 now w1 a0) as [[[f2 w2] r]| |] eqn:Ea; cbn [bind] in H; try discriminate H.
+    apply (await_unexpected f1 now w1 a0 t n) in Ea; [|rewrite Hrx1; exact Hd|rewrite (ts_p f1 f Hp1); exact Hu].
+    destruct Ea as [-> [-> [Htx2 [Hca2 [Hap2 Hrx2]]]]].
+    apply trans_spec in H. destruct H as [s' [Ht [-> ->]]]. rewrite Ms in Ht; rewrite ?Hs1, ?Es in Ht. cbn in Ht. injection Ht as <-.
+    cbn. rewrite Htx2, Hca2, Hap2, Hrx2, Htx1, Hca1, Hap1, Hrx1, Mr, Mp. repeat split; assumption.
+  - (* AwaitDataResponse *)
+    unfold do_await_data_response, assert_entry in H. rewrite ?Hs1, ?Es in H.
+    cbn [kind_of do_fn_entry state_kind_eqb bind get_await_data_response] in H.
+    destruct (nth_error (w_apps w1) (f_next_app f1)) as [app|]; [|discriminate H].
+    rewrite receive_telegram_spec, Hrx1, Hd in H. cbn [bind] in H.
+    rewrite (ivr_p (mark_rx f1 now) f addr t) in H by (rewrite Mp; exact Hp1). rewrite Hu in H.
+    apply trans_spec in H. destruct H as [s' [Ht [-> ->]]]. rewrite Ms in Ht; rewrite ?Hs1, ?Es in Ht. cbn in Ht. injection Ht as <-.
+    cbn. rewrite Htx1, Hca1, Hap1, Mr, Mp. repeat split; assumption.
+  - (* AwaitStatusResponse *)
+    unfold do_await_status_response, assert_entry in H. rewrite ?Hs1, ?Es in H.
+    cbn [kind_of do_fn_entry state_kind_eqb bind get_await_status_response_address] in H.
+    destruct (await_gap_poll_response A f1 now w1 a0) as [[[f2 w2] r]| |] eqn:Ea; cbn [bind] in H; try discriminate H.
+    apply (await_unexpected f1 now w1 a0 t n) in Ea; [|rewrite Hrx1; exact Hd|rewrite (ts_p f1 f Hp1); exact Hu].
+    destruct Ea as [-> [-> [Htx2 [Hca2 [Hap2 Hrx2]]]]].
+    apply trans_spec in H. destruct H as [s' [Ht [-> ->]]]. rewrite Ms in Ht; rewrite ?Hs1, ?Es in Ht. cbn in Ht. injection Ht as <-.
+    cbn. rewrite Htx2, Hca2, Hap2, Hrx2, Htx1, Hca1, Hap1, Hrx1, Mr, Mp. repeat split; assumption.
+Qed.
+
 End WithApps.
